@@ -171,6 +171,7 @@ structure UserOk (P : Item → Prop) : Prop where
   fx : ∀ r f b w, P (.user r (.fx f b) w)
   hook : ∀ r s h t w, P (.user r (.hook s h t) w)
   th : ∀ r u i w, P (.user r (.th u i) w)
+  blk : ∀ r u i w, P (.user r (.blk u i) w)
 
 macro "tra1" : tactic => `(tactic| with_reducible (first
   | apply tra_pure | apply tra_modelErr | (apply tra_get_bind; intro _)
@@ -258,6 +259,13 @@ def actStep (fuel : Nat) (role : Nat) (u : UnitId) (i : Nat) : Act → M (Option
       sop c (.log .error "")
     sop c .threadEnd
     pure none
+  | .attachBlock inner => do
+    match ← apiAct role (.attachBegin "" "" false) with
+    | some k => pure (some k)
+    | none =>
+      match ← execScript fuel role (.blk u i) inner with
+      | some k => do sop role .attachAbort; pure (some k)
+      | none => do sop role .attachEnd; pure none
 
 def raiseName : ExcKind → String
   | .exc => "raise:exc" | .abortTest => "raise:AbortTest" | .abortSuite => "raise:AbortSuite"
@@ -309,6 +317,9 @@ theorem tra_exec (hI : Inner J P) (hU : UserOk P) : ∀ fuel : Nat,
         have h1 := ih.1
         have h2 : ∀ c inner, TrA J P (execScript fuel c (.th u i) inner) :=
           fun c inner => ih.2 c (.th u i) inner hth (fun r => hU.th r u i _)
+        have hbl : UActs P (.blk u i) := fun r w _ => hU.blk r u i w
+        have h3 : ∀ c inner, TrA J P (execScript fuel c (.blk u i) inner) :=
+          fun c inner => ih.2 c (.blk u i) inner hbl (fun r => hU.blk r u i _)
         have hs : ∀ r op, op.inner = true → TrA J P (sop r op) := fun r op h => tra_sop_inner hI r op h
         refine tra_bind (tra_emitUser _ _ _ (hu _ _ (act_ne_enter i))) (fun _ => ?_)
         refine tra_bind ?_ (fun r => ?_)
@@ -326,6 +337,13 @@ theorem tra_exec (hI : Inner J P) (hU : UserOk P) : ∀ fuel : Nat,
             all_goals first
               | exact hs _ _ rfl
               | exact h2 _ _
+          | attachBlock inner =>
+            unfold actStep
+            tra
+            all_goals first
+              | exact tra_apiAct hI _ _ rfl
+              | exact hs _ _ rfl
+              | exact h3 _ _
         · cases r with
           | none => exact h1 _ _ _ _ hu
           | some k =>
@@ -473,7 +491,8 @@ theorem pIn_own {L : Loc} {Q : Nat → UnitId → String → Prop} (x : Item) (h
 theorem inner_own (L : Loc) : Inner (JT L) (POwn L) :=
   (inner_JT L (fun _ _ _ => True)).mono (fun e he => pIn_own (Q := fun _ _ _ => True) (.ev e) he)
 
-theorem userOk_own (L : Loc) : UserOk (POwn L) := ⟨fun _ _ _ _ => trivial, fun _ _ _ _ _ => trivial, fun _ _ _ _ => trivial⟩
+theorem userOk_own (L : Loc) : UserOk (POwn L) :=
+  ⟨fun _ _ _ _ => trivial, fun _ _ _ _ _ => trivial, fun _ _ _ _ => trivial, fun _ _ _ _ => trivial⟩
 
 /-- any call allowed to a task working at `L` emits events of `L` only -/
 theorem tra_sop_own {L : Loc} (role : Nat) (op : Session.Op) (hop : opFor L op = true) :
@@ -734,5 +753,14 @@ theorem htA : svA.spec.tests.find? (fun x => x.name == (["s", "t"] : Path).getLa
 theorem hsvB : (allSuites PA).find? (fun sv => sv.path == (["s", "u"] : Path).dropLast) = some svA := by rfl
 theorem htB : svA.spec.tests.find? (fun x => x.name == (["s", "u"] : Path).getLast?.getD "") = some tB := by rfl
 theorem hsvS : (allSuites PA).find? (fun sv => sv.path == (["s"] : Path)) = some svA := by rfl
+
+/-- a test whose body nests blocks, saves attachments inside them, changes the step inside, starts a thread
+    inside and finally raises from inside two blocks -/
+def tBlocks : TestSpec :=
+  { name := "w", rank := 2, disabled := false, disabledReason := false, deps := [], fixtures := [],
+    script := [.attachBlock [.attach, .step "inside", .attachBlock [.log .info, .attach], .thread [.attachBlock [.attach]]],
+               .attachBlock [.attachBlock [.raise .abortSuite]], .log .info] }
+def sBlocks : SuiteSpec := .mk "b" 0 false none none (some [.attachBlock [.attach]]) none [] [tBlocks] []
+def PBlocks : Proj := { fixtures := [], suites := [sBlocks], nbThreads := 1, forceDisabled := false, stopOnFailure := false }
 
 end LccModel.Run.Sample
